@@ -370,6 +370,25 @@ type vpC18OpResult struct {
 	syncDials int
 	gotConn   bool
 	fresh     bool // conn was dialled by dialConnFor on behalf of a waiter and not used before
+	stuck     string
+}
+
+// vpC18Watch captures the stack of goroutine gid if the op is still running after d (diagnostics
+// for the waiter-deadline oracle: where was the late call blocked?).
+func vpC18Watch(gid int64, d time.Duration, out *string, mu *sync.Mutex) *time.Timer {
+	return time.AfterFunc(d, func() {
+		buf := make([]byte, 1<<20)
+		n := runtime.Stack(buf, true)
+		hdr := "goroutine " + strconv.FormatInt(gid, 10) + " ["
+		for _, g := range strings.Split(string(buf[:n]), "\n\n") {
+			if strings.HasPrefix(g, hdr) {
+				mu.Lock()
+				*out = g
+				mu.Unlock()
+				return
+			}
+		}
+	})
 }
 
 type vpC18Case struct {
@@ -448,6 +467,8 @@ func (c *vpC18Case) run() ([]string, string) {
 						req.SetConnectionClose()
 					}
 					hist.add("w%d Do id=%d timeout=%dms", wi+1, op.ID, op.TimeoutMs)
+					var stuck string
+					wd := vpC18Watch(gid, wait+time.Duration(op.TimeoutMs)*time.Millisecond+vpC18Slack*3/4, &stuck, &rmu)
 					t0 := time.Now()
 					if op.TimeoutMs > 0 {
 						res.err = hc.DoTimeout(req, resp, time.Duration(op.TimeoutMs)*time.Millisecond)
@@ -455,6 +476,10 @@ func (c *vpC18Case) run() ([]string, string) {
 						res.err = hc.Do(req, resp)
 					}
 					res.elapsed = time.Since(t0)
+					wd.Stop()
+					rmu.Lock()
+					res.stuck = stuck
+					rmu.Unlock()
 					if res.err == nil {
 						if got := string(resp.Header.Peek("X-Vp-Id")); got != strconv.Itoa(op.ID) || !bytes.Equal(resp.Body(), c.plans[op.ID].Resp.body) {
 							n.mu.Lock()
@@ -467,9 +492,15 @@ func (c *vpC18Case) run() ([]string, string) {
 					ReleaseResponse(resp)
 				case vpC18OpAcquire:
 					hist.add("w%d AcquireConn timeout=%dms", wi+1, op.TimeoutMs)
+					var stuck string
+					wd := vpC18Watch(gid, wait+vpC18Slack*3/4, &stuck, &rmu)
 					t0 := time.Now()
 					cc, err := hc.AcquireConn(time.Duration(op.TimeoutMs)*time.Millisecond, op.ConnClose)
 					res.elapsed = time.Since(t0)
+					wd.Stop()
+					rmu.Lock()
+					res.stuck = stuck
+					rmu.Unlock()
 					res.err = err
 					if err == nil && cc == nil {
 						res.err = errVPC18NoConn
@@ -580,7 +611,7 @@ func (c *vpC18Case) run() ([]string, string) {
 				// never dialled itself: it found an idle conn, was refused at once, or waited
 				if r.elapsed > budget+vpC18Slack {
 					viol = append(viol, fmt.Sprintf("worker %d: AcquireConn(reqTimeout=%dms) with MaxConnWaitTimeout=%dms returned %v after %v; wait budget %v + %v slack",
-						r.worker, r.op.TimeoutMs, c.cfg.WaitMs, r.err, r.elapsed, budget, vpC18Slack))
+						r.worker, r.op.TimeoutMs, c.cfg.WaitMs, r.err, r.elapsed, budget, vpC18Slack)+"\n    blocked at: "+r.stuck)
 				}
 				switch {
 				case r.err == nil && r.fresh:
@@ -600,7 +631,7 @@ func (c *vpC18Case) run() ([]string, string) {
 				// the request never left: it only waited for a connection
 				if r.elapsed > budget+vpC18Slack {
 					viol = append(viol, fmt.Sprintf("worker %d: Do id=%d (timeout=%dms, MaxConnWaitTimeout=%dms) never got a connection and returned %v only after %v; wait budget %v + %v slack",
-						r.worker, r.op.ID, r.op.TimeoutMs, c.cfg.WaitMs, r.err, r.elapsed, budget, vpC18Slack))
+						r.worker, r.op.ID, r.op.TimeoutMs, c.cfg.WaitMs, r.err, r.elapsed, budget, vpC18Slack)+"\n    blocked at: "+r.stuck)
 				}
 				if wait > 0 {
 					waiterTimeout++
